@@ -239,4 +239,46 @@ def eval_case(case):
                     bad("simplices", "simplices do not triangulate the facets with outward orientation", None, simp)
             except Exception as exn:
                 bad("simplices", f"raised {type(exn).__name__}: {exn}")
-    return out, {"maxrel": maxrel}
+    if "inside" in which and "q" in rec:
+        q, mem = rec["q"], rec["mem"]
+        keep = [i for i, m in enumerate(mem) if m != 2]
+        pts = np.array(fl(pl.points([q[i] for i in keep])), dtype=float)
+        want = np.array([mem[i] == 1 for i in keep])
+        targets = [("ConvexPolyhedron", P)]
+        try:
+            targets.append(("Polyhedron", coxeter.shapes.Polyhedron(verts, [np.array(f) for f in P.faces],
+                                                                    faces_are_convex=True)))
+        except Exception as exn:
+            bad("construct_polyhedron", f"Polyhedron copy of a convex solid rejected: {exn}")
+        try:
+            targets.append(("ConvexSpheropolyhedron_r0", coxeter.shapes.ConvexSpheropolyhedron(verts, 0.0)))
+        except Exception as exn:
+            bad("construct_spheropolyhedron", f"ConvexSpheropolyhedron(r=0) rejected: {exn}")
+        for name, obj in targets:
+            psnap = pts.copy()
+            try:
+                got = np.asarray(obj.is_inside(pts))
+                if got.shape != want.shape:
+                    out.append(({"cls": name, "obs": "is_inside", "tags": tags,
+                                 "msg": f"batch result shape {got.shape}, expected {want.shape}"},
+                                {"case": case, "obs": "is_inside"}))
+                elif not np.array_equal(got.astype(bool), want):
+                    j = int(np.nonzero(got.astype(bool) != want)[0][0])
+                    out.append(({"cls": name, "obs": "is_inside", "tags": tags,
+                                 "msg": f"point {pts[j].tolist()} (lattice {q[keep[j]]}) reported {bool(got[j])}, "
+                                        f"exact membership {bool(want[j])}"},
+                                {"case": case, "obs": "is_inside", "expected": want.tolist(), "observed": got.tolist()}))
+                if not np.array_equal(pts, psnap):
+                    out.append(({"cls": name, "obs": "is_inside_args", "tags": tags,
+                                 "msg": "is_inside modified the caller's points"}, {"case": case}))
+                for j in range(0, len(keep), 41):
+                    g1 = np.asarray(obj.is_inside(pts[j]))
+                    if g1.shape != (1,) or bool(g1[0]) != bool(want[j]):
+                        out.append(({"cls": name, "obs": "is_inside_single", "tags": tags,
+                                     "msg": f"single-point call on {pts[j].tolist()} gave {g1.tolist()}, exact {bool(want[j])}"},
+                                    {"case": case, "obs": "is_inside_single"}))
+                        break
+            except Exception as exn:
+                out.append(({"cls": name, "obs": "is_inside", "tags": tags + ["raised"],
+                             "msg": f"raised {type(exn).__name__}: {str(exn)[:200]}"}, {"case": case, "obs": "is_inside"}))
+    return out, {"maxrel": maxrel, "unclear": sum(1 for m in rec.get("mem", []) if m == 2) if "inside" in which else 0}
